@@ -270,6 +270,55 @@ def scan_assumptions():
     return out
 
 
+NATIVE_FAILURE_TYPES = ("AssertionError", "IndexError", "KeyError", "ZeroDivisionError", "ValueError", "RecursionError", "FloatingPointError", "UnboundLocalError", "NameError",
+                        "OverflowError", "StopIteration", "LinAlgError")
+
+
+def native_failure(exc):
+    """An exception that escaped from a stand-in: was it raised by the code under test (deepest frame that is neither a library nor /verif lies in the repository tree)
+    and is it of a kind that means the code's own logic failed on the input it was given (not AttributeError / TypeError, which may be interface drift between a harness
+    and a refactored private interface)? Returns a description or None."""
+    none_use = type(exc).__name__ in ("AttributeError", "TypeError") and "'NoneType' object" in str(exc)  # None used as a value: the code's own logic, not interface drift
+    if type(exc).__name__ not in NATIVE_FAILURE_TYPES and not none_use:
+        return None
+    tb = exc.__traceback__
+    frames = []
+    remote = getattr(getattr(exc, "__cause__", None), "tb", None)
+    if isinstance(remote, str):
+        # raised in a pool worker: the frames are in the text of the remote traceback
+        import re
+
+        frames = [(m.group(1), int(m.group(2)), m.group(3)) for m in re.finditer(r'File "([^"]+)", line (\d+), in (\S+)', remote)]
+        tb = None
+    while tb is not None:
+        frames.append((tb.tb_frame.f_code.co_filename, tb.tb_lineno, tb.tb_frame.f_code.co_name))
+        tb = tb.tb_next
+    repo = os.path.realpath(REPO) + os.sep
+    here = os.path.realpath(ROOT) + os.sep
+    for fn, ln, name in reversed(frames):
+        rf = os.path.realpath(fn)
+        if "site-packages" in rf or rf.startswith(sys.base_prefix) or fn.startswith("<"):
+            continue
+        if rf.startswith(repo):
+            chain = " <- ".join("%s:%d %s" % (os.path.relpath(os.path.realpath(f), repo) if os.path.realpath(f).startswith(repo) else os.path.basename(f), l, n) for f, l, n in reversed(frames[-6:]))
+            return "%s(%s) raised in the code under test at %s:%d (%s) [%s]" % (type(exc).__name__, str(exc)[:120], os.path.relpath(rf, repo), ln, name, chain)
+        return None  # the deepest own frame is the machinery's: a defect of the harness, not of the code
+    return None
+
+
+def crashed(ctx, e):
+    """an exception escaped from the body of a check: a failure of the code under test on an input of the property's domain is a violation (the replay file carries the
+    traceback, no input was isolated); anything else is a crash of the machinery - never a violation"""
+    traceback.print_exc()
+    nat = native_failure(e)
+    if nat is not None:
+        ctx.fail("%s.native-exception[%s]" % (ctx.prop, nat[:100]), "while a stand-in exercised the real code on an input of the property's domain: " + nat,
+                 {"traceback": traceback.format_exc()[-3000:], "stage": getattr(ctx, "stage", None)}, found_input=False)
+        ctx.engine_error("the check stopped at that exception: what comes after stage '%s' was not run" % (getattr(ctx, "stage", None) or "start"))
+    else:
+        ctx.engine_error("checker crashed: %r" % (e,))
+
+
 def engine_selftest(ctx):
     """Differential test of the interpreter against CPython (tools/engine_selftest.py): run once per state of the engine sources and cached in the
     build directory; a disagreement makes every check an engine error (exit 3) - nothing a defective engine says is believed, and it is never a violation."""
@@ -327,8 +376,7 @@ def run_check(prop, tier, seed, fn):
             engine_selftest(ctx)
             fn(ctx)
         except Exception as e:  # a crash of the machinery is never a violation
-            traceback.print_exc()
-            ctx.engine_error("checker crashed: %r" % (e,))
+            crashed(ctx, e)
         ctx.extra["assumption_scan"] = scan_assumptions()
         return ctx.finish()
     os.makedirs(REPLAY_DIR, exist_ok=True)
@@ -343,8 +391,7 @@ def run_check(prop, tier, seed, fn):
                 engine_selftest(ctx)
                 fn(ctx)
             except Exception as e:  # a crash of the machinery is never a violation
-                traceback.print_exc()
-                ctx.engine_error("checker crashed: %r" % (e,))
+                crashed(ctx, e)
             ctx.extra["assumption_scan"] = scan_assumptions()
             _dump_state(ctx, state_path, True)
         except BaseException:  # noqa
